@@ -68,6 +68,11 @@ def r1_sql_scoping(ctx):
                                 "SELECT of a whole log has no ORDER BY %s: records may come back out of append order — %s" % (PK, st.describe()),
                                 work=len(st.clauses))
                     continue
+            if st.kind == "Select" and re.search(r"::(load_commits|load_events)$", fn.root):
+                ob = " ".join(st.texts("order_by")).upper()
+                if "DESC" in ob or "ASC" not in ob:
+                    r.violation(key + "|ascending", st.where(), "%s reads the log for replay but is not ordered by event_id ASC: the tree/records come back out of append order" % idioms.last_seg(fn.root), work=len(st.clauses))
+                    continue
             r.ok(key, st.where(), "scoped (%s)" % ("owner" if scoped_owner else "pk"), work=len(st.clauses))
 
 
@@ -169,6 +174,39 @@ def r2_tree_follows_storage(ctx):
                         r.ok(k, cfg.loc(body, i), "appended hashes derive from EventRecord::commit of the applied records", work=len(sl.nodes))
                     else:
                         r.violation(k, cfg.loc(body, i), "hashes appended to the tree do not derive from the applied records' commit()", work=len(sl.nodes))
+
+
+def r2b_load_order(ctx):
+    ws = ctx.ws
+    r = ctx.rule("C06-R2b", "re-opening a log reads the records in append order",
+                 floor=2, kind="K1 argument predicate")
+    for fn in ws.impl_methods(EVENTLOG, "load_tree"):
+        body = cfg.code_body(ws, fn)
+        live = cfg.live_blocks(body)
+        names = [cname(t) for _i, t in idioms.real_calls(body, live)]
+        if "load_tree" in names and "append" not in names and "insert" not in names:
+            r.ok(fn.root + "|delegate", cfg.loc(body), "enum dispatch", work=1)
+            continue
+        its = [(i, t) for i, t in idioms.real_calls(body, live) if cname(t) in ("iter", "record_stream")]
+        lc = [(i, t) for i, t in idioms.real_calls(body, live) if cname(t) in ("load_commits", "conn_and_then", "conn")]
+        k = fn.root + "|forward"
+        if its:
+            c = cfg.op_const(its[0][1]["args"][-1])
+            if c is not None and c.get("b") is False:
+                r.ok(k, cfg.loc(body, its[0][0]), "load_tree iterates forward (reverse = false)", work=1)
+            else:
+                r.violation(k, cfg.loc(body, its[0][0]), "load_tree iterates the log in reverse: the rebuilt tree has its leaves in the wrong order", work=1)
+        elif lc or any("load_commits" in (t.get("callee") or "") for b in fn.bodies for _i, t in b.calls()):
+            rev = [t for b in fn.bodies for _i, t in b.calls() if cname(t) in ("rev", "reverse")]
+            if rev:
+                r.violation(k, cfg.loc(body), "load_tree reverses the commits it loaded", work=1)
+            else:
+                r.ok(k, cfg.loc(body), "load_tree appends load_commits() in query order (ORDER BY event_id ASC, C06-R1)", work=1)
+        else:
+            r.violation(k, cfg.loc(body), "load_tree reads the log through neither iter(false) nor load_commits", work=1)
+        ins = [i for i, t in idioms.real_calls(body, live) if re.search(r"CommitTree::(append|insert)$", t.get("callee") or "")]
+        if not ins:
+            r.violation(fn.root + "|rebuilds", cfg.loc(body), "load_tree no longer rebuilds the tree", work=1)
 
 
 def r3_commit_is_hash_of_bytes(ctx):
@@ -323,6 +361,7 @@ def run(ctx):
               "rs_merkle Sha256")
     r1_sql_scoping(ctx)
     r2_tree_follows_storage(ctx)
+    r2b_load_order(ctx)
     r3_commit_is_hash_of_bytes(ctx)
     r4_no_mut_tree_api(ctx)
     r5_backend_dispatch(ctx)
